@@ -66,6 +66,8 @@ SPELL = {
     "bin": lambda rng: "0b" + rng.pick(["0", "1", "1010", "1_0", "1" * 128, "1" * 129, "0" * 129 + "1", ""]),
     "suffix": lambda rng: rng.pick(["", "", "u8", "i8", "u16", "i16", "u32", "i32", "u64", "i64", "u128", "i128", "usize",
                                     "u7", "x", "_u8", "char8"]),
+    "stray": lambda rng: rng.pick(["\u00bf", "\u00ff", "\u20bf", "\u0080", "\u00c0", "\u07ff", "\uffff", "\U0001f63f", "\U0010ffff", "\u00e9", "\u20ac",
+                                   "\u00bf\u00bf", "a\u00bfb", "\u20bf1"]),
     "ident": lambda rng: rng.pick(["a", "foo", "_x", "x1", "fnord", "iffy", "return", "returns", "Word8", "word8", "u8x",
                                    "true", "false", "_", "__", "loop", "as", "cast", "import", "struct", "bool"]),
     "sym": lambda rng: rng.pick(["(", ")", "{", "}", "[", "]", "<", ">", "|", "&", "^", "!", "+", "-", "*", "/", "%", ":",
@@ -83,7 +85,7 @@ SPELL = {
 def random_source(rng):
     parts = []
     for _ in range(1 + rng.below(12)):
-        k = rng.pick(["dec", "hex", "bin", "ident", "ident", "sym", "sym", "str", "chr", "builtin"])
+        k = rng.pick(["dec", "hex", "bin", "ident", "ident", "sym", "sym", "str", "chr", "builtin", "stray"])
         t = SPELL[k](rng)
         if k in ("dec", "hex", "bin"):
             t += SPELL["suffix"](rng)
@@ -100,7 +102,7 @@ def multiline_source(rng):
     for _ in range(3 + rng.below(5)):
         parts = []
         for _k in range(rng.below(4)):
-            k = rng.pick(["dec", "ident", "ident", "sym", "str", "chr", "hex"])
+            k = rng.pick(["dec", "ident", "ident", "sym", "str", "chr", "hex", "stray"])
             parts.append(SPELL[k](rng))
             parts.append(rng.pick([" ", " ", "\t", ""]))
         if rng.chance(1, 3):
@@ -189,7 +191,12 @@ def main():
                         continue
                     out.append(k)
                 return out
-            exp, got = squash(kinds(exp)), squash(kinds(got))
+            # (one E110 per character in both generations since F9e was repaired: runs are compared as they are, unless a
+            # lone carriage return is involved - F9f)
+            if "\r" in s:
+                exp, got = squash(kinds(exp)), squash(kinds(got))
+            else:
+                exp, got = kinds(exp), kinds(got)
         if got == exp:
             agree_d += 1
         else:
